@@ -728,7 +728,56 @@ def condition_shape(rng, lit, k=None, p=None):
     return "template T(n) { signal input a; signal output b; var c = a == %s; var d = %s < %s; var x = %s; if (c) { x = 1; } if (d) { x = x + 1; } b <-- x; }" % (lit(), big(), big(), lit())
 
 
-FEATURE_SHAPES = [(component_shape, 9), (dimension_shape, 7), (nested_signal_shape, 6), (signal_loop_shape, 6), (lookalike_shape, 12), (matrix_shape, 8), (anon_shape, 8), (condition_shape, 10)]
+OPS_TEXT = ["*", "/", "+", "-", "**", "\\", "%", "<<", ">>", "<=", ">=", "<", ">", "==", "!=", "||", "&&", "|", "&", "^"]
+
+
+def absorbing_shape(rng, lit, k=None, p=None):
+    """One operator, a constant operand that may decide the result alone (0, 1, p - 1, true, false - as a literal, as a
+    local holding it, as a constant subexpression) on either side, and on the other side an operand the analysis does
+    not know: a parameter, a local computed from one, a loop variable (which is 0 in the first iteration). The results
+    flow into conditions, array sizes, `<--` and returns. k selects the operator (20) in the stratum."""
+    p = p or PRIMES["BN254"]
+    op = OPS_TEXT[(rng.randrange(20) if k is None else k) % 20]
+    consts = ["0", "1", str(p - 1), "(1 == 1)", "(1 == 2)", "z", "o", "(3 - 3)", "(2 - 1)"]
+    unknown = ["n", "m", "u", "(n - m)", "i"]
+    shape = rng.randrange(4)
+    forced = None
+    if k is not None:   # in the per-run stratum: k < 20 the function shape for operator k; k = 20..23 `**` with a loop variable / in a template,
+        shape = 0       # the base being the literal 0 for k = 20, 21
+        if k >= 20:
+            op, shape = "**", 2 + k % 2
+            forced = "0" if k < 22 else None
+    if shape <= 1:      # function: every constant on both sides against parameters and a local, each result compared / used as a size
+        parts = []
+        j = 0
+        for c in ["0", "1"] + rng.sample(consts[2:], 4):
+            for side in (0, 1):
+                x = rng.choice(unknown[:4])
+                e = "(%s %s %s)" % ((c, op, x) if side == 0 else (x, op, c))
+                j += 1
+                sink = rng.randrange(4)
+                if sink == 0:
+                    parts.append("if (%s == %s) { r += %d; }" % (e, rng.choice(["0", "1"]), j))
+                elif sink == 1:
+                    parts.append("var e%d = %s; if (e%d != %s) { r += 1; }" % (j, e, j, rng.choice(["0", "1"])))
+                elif sink == 2:
+                    parts.append("var t%d[%s + 1]; t%d[0] = %d; r += t%d[0];" % (j, e, j, j, j))
+                else:
+                    parts.append("if (%s) { r += 2; }" % e)
+        return "function f(n, m) { var z = 0; var o = 1; var u = n * m; var r = 0; %s return r; }" % " ".join(parts)
+    if shape == 2:      # a loop variable as the unknown operand: it is 0 in the first iteration
+        c = forced or rng.choice(consts[:5] + ["z", "o"])
+        e = "(%s %s i)" % (c, op) if forced else rng.choice(["(%s %s i)" % (c, op), "(i %s %s)" % (op, c)])
+        return ("function f(n) { var z = 0; var o = 1; var acc = 0; for (var i = 0; i < %s; i++) { var w = %s; if (w == %s) { acc += 1; } acc += w; } if (acc == %d) { return 1; } return acc; }"
+                % (rng.choice(["2", "3", "n"]), e, rng.choice(["0", "1"]), rng.randrange(4)))
+    c = forced or rng.choice(consts)  # template: the result is a dimension, a condition and the right-hand side of `<--`
+    e1 = "(%s %s n)" % (c, op)
+    e2 = "(n %s %s)" % (op, c)
+    return ("template T(n) { signal input a; signal output b; var z = 0; var o = 1; var x = %s; var y = %s; signal s[x + 1]; if (y == %s) { b <-- a * x; } else { b <-- a + y; } }"
+            % (e1, e2, rng.choice(["0", "1"])))
+
+
+FEATURE_SHAPES = [(component_shape, 9), (dimension_shape, 7), (nested_signal_shape, 6), (signal_loop_shape, 6), (lookalike_shape, 12), (matrix_shape, 8), (anon_shape, 8), (condition_shape, 10), (absorbing_shape, 24)]
 
 
 def feature_stratum(rng, curve="BN254"):
@@ -737,7 +786,7 @@ def feature_stratum(rng, curve="BN254"):
     p = PRIMES[curve]
     lit = lambda: (str(rng.choice([0, 1, 2, 3, 5, p - 1, p // 2, p // 2 + 1, 255, 256, 1 << 20])) if rng.random() < 0.85 else big_literal(rng, p))
     big = lambda: big_literal(rng, p)
-    return [(f(rng, big, k, p) if f is condition_shape else f(rng, lit, k)) for f, n in FEATURE_SHAPES for k in range(n)]
+    return [(f(rng, big, k, p) if f in (condition_shape, absorbing_shape) else f(rng, lit, k)) for f, n in FEATURE_SHAPES for k in range(n)]
 
 
 def targeted(rng, curve="BN254"):
@@ -745,7 +794,9 @@ def targeted(rng, curve="BN254"):
     values merged at joins, loops, every operator on constants)."""
     p = PRIMES[curve]
     lit = lambda: (str(rng.choice([0, 1, 2, 3, 5, p - 1, p // 2, p // 2 + 1, 255, 256, 1 << 20])) if rng.random() < 0.85 else big_literal(rng, p))
-    k = rng.randrange(50)
+    k = rng.randrange(54)
+    if k >= 50:
+        return absorbing_shape(rng, lit, None, p)
     if k >= 47:
         return condition_shape(rng, lambda: big_literal(rng, p), None, p)
     if k >= 44:
